@@ -53,5 +53,5 @@ CLAIMED.update({
 })
 
 # properties whose check is complete enough to be claimed in MANIFEST.json right now
-READY = {"C19", "C09", "C18", "C07", "C17", "C01", "C02", "C08", "C14", "C06"}
+READY = {"C19", "C09", "C18", "C07", "C17", "C01", "C02", "C08", "C14", "C06", "C20"}
 CLAIMED = {k: v for k, v in CLAIMED.items() if k in READY}
